@@ -51,6 +51,8 @@ def generate(R: Draw, tier: str) -> dict:
     case = {"schema": sref, "doc": doc, "kind": kind}
     if kind == "slice":
         case["slice"] = gs.rand_slice(R, g, "small") if R.bool(0.8) else gs.closed_slice(R, g)
+        if R.bool(0.2):
+            case["slice"] = gs.hollow_slice(R, rs, doc) or case["slice"]
     elif kind == "mark":
         if rs.mark_names:
             case["marks"] = [g.mark(R, R.choice(rs.mark_names)) for _ in range(R.int(1, 3))]
@@ -215,6 +217,8 @@ def check(case: dict, ctx: Ctx) -> None:
         require(em.ok and P.plain_slice(em.value) == {"c": [], "os": 0, "oe": 0}, "slice:empty", "Slice.empty does not round-trip")
         ctx.label("kind:slice")
         ctx.label(f"slice:open={min(sl_p['os'],2)},{min(sl_p['oe'],2)}")
+        if sl_p["c"] and S.slice_size(sl_p, rs.leaf_types) == 0:
+            ctx.label("slice:hollow-size-0")
         if sl_p["os"] or sl_p["oe"] or sl_p["c"]:
             ctx.nontrivial(["slice", sk, sl_p])
         return
